@@ -157,7 +157,7 @@ class Result:
 
 # ------------------------------------------------------------------------------------------ core engine
 CORE_CLASSES = {
-    "C01": ["reuse", "mix", "ready", "disable"],
+    "C01": ["reuse", "mix", "ready", "disable", "timers"],
     "C03": ["pings", "pings", "disable"],
     "C04": ["chans", "chans", "mix"],
     "C10": ["streams", "execs", "execs", "mix"],
